@@ -1115,7 +1115,6 @@ let rec script_first_stop = function
 | r :: t ->
   (match r.status with
    | Code _ -> script_first_stop t
-   | ESkipped -> script_first_stop t
    | EDetached -> script_first_stop t
    | _ -> Some r)
 
@@ -1136,6 +1135,7 @@ let exec_script skip rs =
   | Some r ->
     (match r.status with
      | TimedOut -> ExTimeout (true, (r :: []))
+     | ESkipped -> ExSkipped O
      | _ -> ExFailed O)
   | None ->
     (match find_skip skip rs O with
